@@ -180,6 +180,21 @@ func (g *docGen) matrix() any {
 	if g.pick(3) == 0 {
 		return vals() // matrix: [a, b]
 	}
+	if g.pick(8) == 0 {
+		// a matrix mapping WITHOUT setup: empty, only extras, only adjustments (one of them without `with`)
+		out := [][2]any{}
+		if g.pick(2) == 0 {
+			out = append(out, [2]any{g.str("key"), g.anyValue(1)})
+		}
+		if g.pick(2) == 0 {
+			adjs := []any{orderedJSON{{"with", orderedJSON{{g.str("dim"), mval(false)}}}, {"skip", true}}}
+			if g.pick(2) == 0 {
+				adjs = append(adjs, orderedJSON{{"skip", g.str("skip")}})
+			}
+			out = append(out, [2]any{"adjustments", adjs})
+		}
+		return orderedJSON(out)
+	}
 	anon := g.pick(2) == 0
 	var setup any
 	dims := []string{}
@@ -210,6 +225,9 @@ func (g *docGen) matrix() any {
 				with = orderedJSON(wp)
 			}
 			ap := [][2]any{{"with", with}}
+			if g.pick(6) == 0 {
+				ap = [][2]any{} // an adjustment written without `with`
+			}
 			switch g.pick(4) {
 			case 0:
 				ap = append(ap, [2]any{"skip", true})
